@@ -42,7 +42,7 @@ var c11Paths = map[string][]string{
 func genC11Case(t *rapid.T) C11Case {
 	idp := genIdPConfig(t, worldOpts{issuerModes: []string{"static", "static", "host", "forwarded"}, signingFlags: false})
 	if idp.IssuerMode == "static" && rapid.IntRange(0, 5).Draw(t, "oddissuer") == 0 {
-		idp.Issuer = rapid.SampledFrom([]string{"https://idp.example/métadonnées", "https://idp.example/tenant a", "https://idp.example/a%20b", "https://bücher.example/saml"}).Draw(t, "oddissuerv")
+		idp.Issuer = rapid.SampledFrom([]string{"https://idp.example/métadonnées", "https://idp.example/tenant a", "https://idp.example/a%20b", "https://bücher.example/saml", "https://xn--bcher-kva.example/saml", "https://idp--staging.example", "https://idp.example/a--b/--", "https://idp.example/--x"}).Draw(t, "oddissuerv")
 		if idp.Insecure {
 			idp.Issuer = strings.Replace(idp.Issuer, "https://", "http://", 1)
 		}
@@ -79,10 +79,10 @@ func genC11Case(t *rapid.T) C11Case {
 	spec.IdP = idp
 	spec.SPs[1].AuthnRequestsSigned = A
 	spec.Requests = []world.RequestSpec{{ID: "c11-done", AppID: "app-0", RelayState: "rs", ACS: "https://sp0.example/acs/post", Binding: world.BindPost, AuthRequestID: "_c11", UserID: "uid-0", Done: true}}
-	c := C11Case{Spec: spec, Host: rapid.SampledFrom(append(reqHosts, "UPPER.Example", "idp.example.", "localhost:8080")).Draw(t, "host")}
+	c := C11Case{Spec: spec, Host: rapid.SampledFrom(append(reqHosts, "UPPER.Example", "idp.example.", "localhost:8080", "xn--bcher-kva.idp.example", "idp--staging.example:8443", "a--b--c.example")).Draw(t, "host")}
 	c.Rotate = rapid.IntRange(0, 2).Draw(t, "rotate") == 0
 	if idp.IssuerMode == "forwarded" && rapid.Bool().Draw(t, "fwd") {
-		c.Headers = [][2]string{{"Forwarded", "for=192.0.2.9;host=" + rapid.SampledFrom([]string{"public.idp.example", "\"proxy.example:444\""}).Draw(t, "fwdhost")}}
+		c.Headers = [][2]string{{"Forwarded", "for=192.0.2.9;host=" + rapid.SampledFrom([]string{"public.idp.example", "\"proxy.example:444\"", "xn--public-idp.example"}).Draw(t, "fwdhost")}}
 	}
 	return c
 }
